@@ -7,7 +7,7 @@ import OtelVerif.Gen.Baggage
     default tokenizer options: `,` / `=` / `ignore_empty_members = true`).
 
     `UrlDecode` is modelled with explicit indices: every `str[i]`, `str[i + 1]`, `str[i + 2]` is a checked read
-    (`Fault.oob` outside the string).  `FromHeader` runs the index-explicit tokenizer and `Trim` of
+    (`IxFault.oob` outside the string).  `FromHeader` runs the index-explicit tokenizer and `Trim` of
     `Model/KvTokIdx.lean`; only `NumTokens` (which has no index access of its own) is taken at list level. -/
 namespace Otel
 namespace Baggage
@@ -41,7 +41,7 @@ def fromHex (c : UInt8) : UInt8 :=
   if isDigit c then c - 48 else (if 97 ≤ c && c ≤ 122 then c - 32 else c) - 65 + 10
 
 /-- the `for (i = 0; i < str.size(); i++)` loop of `UrlDecode`; `ok none` = `err = 1; return ""` -/
-def urlDecodeLoop (s : Bytes) : Nat → Nat → Bytes → Res (Option Bytes)
+def urlDecodeLoop (s : Bytes) : Nat → Nat → Bytes → IxRes (Option Bytes)
   | 0, i, acc => if i < s.length then .fault .fuel else .ok (some acc)
   | fuel + 1, i, acc =>
     if i < s.length then
@@ -59,7 +59,7 @@ def urlDecodeLoop (s : Bytes) : Nat → Nat → Bytes → Res (Option Bytes)
     else .ok (some acc)
 
 /-- `UrlDecode(str, err)` -/
-def urlDecode (s : Bytes) : Res (Option Bytes) := urlDecodeLoop s s.length 0 []
+def urlDecode (s : Bytes) : IxRes (Option Bytes) := urlDecodeLoop s s.length 0 []
 
 /-- `IsPrintableString` (signed `char`: bytes ≥ 0x80 compare below `' '`) -/
 def isPrintable (s : Bytes) : Bool := s.all fun c => Gen.baggagePrintLo ≤ c && c ≤ Gen.baggagePrintHi
@@ -78,7 +78,7 @@ def cstr (s : Bytes) : Bytes := s.takeWhile (· != 0)
 
 /-- the body of the `FromHeader` loop for one result of `tokenizer.next`; `kv = none` is `kv_valid = false`;
     `ok none` = the member is skipped -/
-def parseKv (kv : Option (Bytes × Bytes)) : Res (Option (Bytes × Bytes)) :=
+def parseKv (kv : Option (Bytes × Bytes)) : IxRes (Option (Bytes × Bytes)) :=
   match kv with
   | none => .ok none
   | some (k, v) =>
@@ -93,7 +93,7 @@ def parseKv (kv : Option (Bytes × Bytes)) : Res (Option (Bytes × Bytes)) :=
         | _, _ => .ok none
 
 /-- `while (tokenizer.next(...) && baggage->Size() < cnt)` over the results of `next` -/
-def fromHeaderLoop (cnt : Nat) : List (Option (Bytes × Bytes)) → KvProps → Res KvProps
+def fromHeaderLoop (cnt : Nat) : List (Option (Bytes × Bytes)) → KvProps → IxRes KvProps
   | [], p => .ok p
   | kv :: rest, p =>
     if p.entries.length < cnt then
@@ -104,7 +104,7 @@ def fromHeaderLoop (cnt : Nat) : List (Option (Bytes × Bytes)) → KvProps → 
     else .ok p
 
 /-- `Baggage::FromHeader` → the ordered entries of the result -/
-def fromHeader (h : Bytes) : Res Entries :=
+def fromHeader (h : Bytes) : IxRes Entries :=
   if h.length > Gen.baggageMaxSize then .ok []
   else
     let n := numTok Gen.baggageMemberSep h
